@@ -36,6 +36,22 @@ def main():
         return
 
 
+ML_TEXTS = ["alpha beta\n  gamma delta.\n\nepsilon (zeta) eta\nlast\n", "one two. Three!\nfour\n\n\nfive six\n", "aa bb\ncc dd\nee ff\ngg\n"]
+
+
+def gen_ml():
+    """family added on 2026-09-30: every command of the corpus' command list at every cursor of three multi-line
+    texts — the first corpus had its systematic part on buffers of up to three characters, whose lines all start
+    near offset 0, and a cursor-placement regression on later lines went unnoticed."""
+    import vimcorpus
+    cases = []
+    for t in ML_TEXTS:
+        for cur in vimcorpus.cursors(t):
+            for cls, keys in vimcorpus.commands():
+                cases.append({"id": len(cases), "text": t, "cursor": cur, "keys": keys, "cls": "ml:" + cls})
+    return cases
+
+
 def gen():
     cases = []
     for t in TEXTS:
@@ -52,7 +68,7 @@ if __name__ == "__main__":
     if sys.argv[1] == "--merge":
         main()
     else:
-        cases = gen()
+        cases = gen_ml() if "--ml" in sys.argv else gen()
         from concurrent.futures import ThreadPoolExecutor
         rec = record_vim.record(cases)
         out = [{"id": c["id"], "text": c["text"], "cursor": c["cursor"], "keys": c["keys"], "cls": c["cls"],
